@@ -43,7 +43,7 @@ theorem fn_HashMapContext_get_value_agree (h : HashMapCtx) (id : Str) :
     Gen.HashMapContext.get_value h id = Ctx.getValue (.hashMap h) id := rfl
 theorem fn_HashMapContext_call_function_agree (h : HashMapCtx) (id : Str) (arg : Value) :
     Gen.HashMapContext.call_function h id arg = Ctx.callFunction (.hashMap h) id arg := by
-  simp only [Gen.HashMapContext.call_function, Ctx.callFunction, Ctx.userFn, Rs.get_map, Rs.fn_call_user, Rs.clone_def]
+  simp only [Gen.HashMapContext.call_function, Ctx.callFunction, Ctx.userFn, Rs.get_map, Rs.fn_call_user]
   cases alookup id h.funs <;> rfl
 theorem fn_HashMapContext_are_builtin_functions_disabled_agree (h : HashMapCtx) :
     Gen.HashMapContext.are_builtin_functions_disabled h = Ctx.builtinsDisabled (.hashMap h) := rfl
